@@ -3,6 +3,21 @@
 import json
 
 CLAIMED = {
+    "C06": dict(
+        text="Lean 4: the size-generic statements — Props/C06.lean (the constants index_normalise writes into the graph are size-independent and select Python's positions at every extent n>=0), Props/C08.lean (slice_axis_agree for all n) and the layout index-map theorems of Props/C11.lean hold for every run-time extent incl. 0 and 1, because the emitted term mentions no extent. The tie: random programs are traced ONCE with symbolic or unknown dims (all inputs lazy, and a random subset), and the same onnxruntime session is run at the trace-time sizes and at further size assignments over {0,1,2,3,5,8} per size variable, including a unit size variable that triggers broadcasting through unknown extents; every step is compared with eager evaluation at that size (dtype, shape, field shapes, mask, values).",
+        note="Trusted: Lean kernel; the index/layout models (tied by the C08/C11 correspondence runs); onnxruntime as the evaluator of both sides. Programs containing sort/argsort are not run at zero extents (recorded finding: interpreter crash in onnxruntime TopK). Two recorded findings (where equal-branches folding with symbolic condition; argmax/argmin on nullable input).",
+        technique="Lean 4 proof: extent-generic index-map theorems + one-build-many-sizes correspondence",
+        design_ref="§7 C06"),
+    "C15": dict(
+        text="Lean 4: Props/C15.lean proves that ndonnx's hand-written shape annotations are valid for every input: Slice preserves rank, a scalar Gather removes exactly one axis, boolean-mask selection has rank(x) - rank(mask) + 1 (the getitem_null annotation) and rejects masks of higher rank, integer-array selection has rank(index) + rank(x) - 1, Unsqueeze adds one axis per position. The tie: for every step of random traced programs (static / symbolic / unknown / mixed placeholder dims) the reported dtype, ndim and integer extents, the element types and dims the exported model declares, and the run-time value of additional.shape are compared with the model's outputs at two size assignments.",
+        note="Trusted: Lean kernel; ONNX shape inference itself (spox/onnx code) is outside the model and only compared with run-time results; the index model is tied by the C08 correspondence.",
+        technique="Lean 4 proof: annotation-validity (rank) theorems on the index model + static-vs-run-time correspondence",
+        design_ref="§7 C15"),
+    "C16": dict(
+        text="Lean 4: Props/C16.lean — corollary of the simulation theorem (Props/C01.refinement_general) with onnxruntime present in one run and absent in the other: whatever traces with onnxruntime also traces without it, every cell denotes the same value under every environment, reported values agree; without onnxruntime a primitive never reports a value and no operator semantics is ever consulted (no_kernel_needed). The tie: random programs x partitions are traced here and in a child interpreter in which importing onnxruntime raises ImportError (no source hook); both serialized models are run and compared output by output; the _CoreArray history correspondence is repeated with onnxruntime absent.",
+        note="Trusted: Lean kernel; the state-machine model (tied by the history correspondence in both configurations); the import blocker faithfully reproducing a missing onnxruntime.",
+        technique="Lean 4 proof: simulation corollary + with/without-onnxruntime differential in a child interpreter",
+        design_ref="§7 C16"),
     "C01": dict(
         text="Lean 4: Props/C01.lean proves refinement for the propagation state machine (Model/Heap.lean: cells = (graph term, optional eager value); transitions = input creation, any @eager_propagate primitive, copy, in-place _set): for every program of any length, every input tuple and every subset S of inputs traced as placeholders, if eager evaluation succeeds the traced run succeeds and every traced cell denotes, under the environment binding the placeholders to the inputs, exactly the value eager evaluation reports (refinement_general / refinement_partial, by a simulation proved by induction over histories for arbitrary value types and operator semantics). The tie: random multi-step programs over ~90 public operations (all dtypes incl. nullable/string, ranks 0-3, extents 0-3, broadcasting, guard-directed single-element constants for the value-dependent shortcuts) are evaluated eagerly and traced with subsets of inputs lazy (static/symbolic/unknown dims), exported, run in onnxruntime and compared step by step; the heap model itself is tied to _CoreArray/_propagation by the history correspondence of the C07 check.",
         note="Trusted: Lean kernel; the state-machine model of _propagation.py/_corearray.py (tied by flag-level history correspondence, not proved about the Python source); onnxruntime evaluating a one-node session and a full model identically (runtime behaviour, exercised only). The Python-level value-dependent shortcuts (where, logical_and/or, all/any) are outside the theorem (named _partial) and covered by the guard-directed correspondence runs; one of them is a recorded finding.",
